@@ -88,8 +88,10 @@ impl TryFrom<(FeelNumber, FeelNumber, FeelNumber)> for FeelDate {
   type Error = DmntkError;
   /// Converts a tuple of numbers into [FeelDate].
   fn try_from(value: (FeelNumber, FeelNumber, FeelNumber)) -> Result<Self, Self::Error> {
-    let year = value.0.into();
-    if value.1 > FeelNumber::zero() && value.2 > FeelNumber::zero() {
+    // the components must be integers within the range of the calendar, only then the narrowing conversions are exact
+    let in_range = |number: &FeelNumber, min: i32, max: i32| number.is_integer() && *number >= FeelNumber::from(min) && *number <= FeelNumber::from(max);
+    if in_range(&value.0, -999_999_999, 999_999_999) && in_range(&value.1, 1, 12) && in_range(&value.2, 1, 31) {
+      let year = value.0.into();
       let month = value.1.into();
       let day = value.2.into();
       if is_valid_date(year, month, day) {
